@@ -124,6 +124,15 @@ Theorem C07_problems_untargeted :
 Proof. intros. now apply problems_exact_untargeted. Qed.
 Print Assumptions C07_problems_untargeted.
 
+(** "Every other check reads no rule comment" is re-derived from the source on every run: the non-test files of
+    internal/checks that select a field named Comments or call comments.Only (translator/ext_C07.go -> Gen/C07.v) are
+    exactly promql_series.go.  A new reader of rule comments (a check for which H-insensitive may fail) changes the
+    list and breaks this obligation. *)
+From PintV Require Gen.C07.
+Theorem C07_comment_readers_match_source : Gen.C07.comment_reading_files = ["promql_series.go"].
+Proof. reflexivity. Qed.
+Print Assumptions C07_comment_readers_match_source.
+
 (** a snooze whose time is in the future does the same *)
 Theorem C07_snooze_live_exact : forall now en dis cfg e c1 c2 until m prs,
   e_comments e = c1 ++ c2 -> (now < until)%Z ->
